@@ -1241,6 +1241,20 @@ pub fn c19(ctx: &mut Ctx) -> String {
             if na == nb && catch_unwind(AssertUnwindSafe(|| s1.distance(&s1, 1.0))).is_err() {
                 ctx.fail_prop(&json!({"op": "distance-same-game", "game": na}), format!("distance between profiles of one game ({}) panicked", na));
             }
+            // the two documented panics do not depend on *which* profiles are compared: a profile
+            // against itself (the very same object) with a non-positive exponent panics too, and
+            // with a valid exponent is at distance zero
+            if na == nb {
+                for p in [0.0, -1.0, f64::NAN, -0.0] {
+                    if let Ok(d) = catch_unwind(AssertUnwindSafe(|| s1.distance(&s1, p))) {
+                        ctx.fail_prop(&json!({"op": "distance-same-object", "game": na, "p": format!("{}", p)}), format!("distance of a profile to itself with p = {} did not panic but returned {:?}", p, d));
+                    }
+                }
+                match catch_unwind(AssertUnwindSafe(|| s1.distance(&s1, 2.0))) {
+                    Ok(d) if d == [0.0, 0.0] => ctx.stat("self_distance_zero"),
+                    other => ctx.fail_prop(&json!({"op": "distance-same-object", "game": na}), format!("distance of a profile to itself is {:?}", other.ok())),
+                }
+            }
         }
     }
     "games from the mixed stream (incl. games where a player has no decision) x pairs of profiles (equal, pure vs pure, arbitrary) x p in {0.25, 0.5, 1, 2, 7, 1e3, 0, -1, NaN, inf}; distinct = hash of (tree, both profiles, p)".to_string()
